@@ -91,7 +91,7 @@ func evalStr(src string, env interface{}) string {
 			out = "error"
 			return
 		}
-		out = v.Type.String() + ":" + v.String()
+		out = string(TySx(v.Type)) + ":" + v.String()
 	})
 	if pan {
 		return "panic:" + msg
@@ -225,7 +225,7 @@ func runC10(r *Run) {
 						cl := e.CompileExpr(tree, te)
 						ve, _ := conv.ValEnvOf(env)
 						v := cl(ve)
-						return v.Type.String() + ":" + v.String()
+						return string(TySx(v.Type)) + ":" + v.String()
 					}
 					e := mk()
 					tree := e.Parse(src)
